@@ -201,6 +201,26 @@ def check(run):
     # the same lexicon in one segment and in three: a search finds the same words (C06: the layout is invisible)
     both = [(qw, k, p) for (ns, qw, k, p) in found if ns == 1 and (3, qw, k, p) in found]
     differ = [(qw, k, p) for (qw, k, p) in both if found[(1, qw, k, p)] != found[(3, qw, k, p)]]
+    # a lexicon large enough for an expansion of more than a thousand words (every word of up to 7 letters over
+    # three letters; a generous distance, no required prefix): nothing within the distance may be left out
+    big = all_words([1, 2, 3], 7)
+    ixb, idxb = build(big, 1, rng, {})
+    with ixb.searcher() as s:
+        qsb = []
+        for qw, k in (([1, 2, 3, 1, 2, 3], 3), ([2, 1, 3, 2], 2)):
+            aq = {"op": "fuzzy", "f": "body", "t": qw, "maxdist": k, "prefix": 0, "b4": 4}
+            obs = []
+            try:
+                obs.append({"kind": "ids", "path": "FuzzyTerm(1seg) over a lexicon of %d words" % len(big),
+                            "ids": sorted(int(d) for d in s.docs_for_query(
+                                query.FuzzyTerm("body", world.term_text(qw), maxdist=k, prefixlength=0)))})
+            except Exception as ex:
+                obs.append({"kind": "error", "path": "FuzzyTerm(big lexicon)", "err": type(ex).__name__, "msg": str(ex)[:100]})
+            run.count(len(obs))
+            qsb.append({"q": aq, "obs": obs})
+    cases.append({"idx": idxb, "qs": qsb})
+    metas.append({"plan": ["lexicon of %d words" % len(big), 1], "nseg": 1, "deleted": 0})
+    run.extra["largest_fuzzy_expansion_observed"] = max([len(o["ids"]) for q_ in qsb for o in q_["obs"] if o["kind"] == "ids"] or [0])
     cases.append({"idx": {"docs": []}, "qs": [{"q": {"op": "null"}, "obs": [
         {"kind": "flag", "path": "FuzzyTerm finds the same words in a one-segment and a three-segment index (%d searches compared%s)"
          % (len(both), "; differs for %r" % (differ[:3],) if differ else ""), "value": not differ and len(both) > 0}]}]})
